@@ -173,6 +173,8 @@ def shards(tier, seed):
                         continue
                     sh.append(("sweep", pn, pers, conn, path))
                 sh.append(("combos", pn, pers, conn, "combo"))
+    # the controller refuses the n-th write service (every n, several statuses): success may only be reported for data that is in memory
+    sh += [("refused", "P2", pers, conn, "refused") for pers in ("v20", "v32", "m800") for conn in CONNS]
     return sh
 
 
@@ -188,6 +190,23 @@ def run_shard(shard, tier, seed):
     if r != ("ok", True):
         rep.case((cfg, "open"), outcome="open-failed")
         rep.violation("write/open-failed", f"{cfg}: open() -> {r!r:.120}", {"cfg": list(cfg), "image": 0, "requests": [], "path": path})
+        w.__exit__()
+        return rep
+    if kind == "refused":
+        from . import c03
+
+        fill_image(proj, seed % 4)
+        alone = c03.prepare(proj, ctl, d, "write")
+        sub = Report()
+        c03.run_refusals(sub, cfg, proj, ctl, d, "write", alone, statuses=[(0x04, []), (0xFF, [0x2105]), (0x10, [])])
+        rep.evaluations, rep.transitions, rep.cases, rep.nontrivial, rep.outcomes = sub.evaluations, sub.transitions, sub.cases, sub.nontrivial, sub.outcomes
+        for sig, vs in sub.violations.items():
+            if "/refusal-swallowed/" in sig or "/memory/" in sig:
+                for v in vs:
+                    rep.violation(sig.replace("write/refused-service", "write/refused"), v.msg, {"cfg": list(cfg), "image": seed % 4, "requests": [], "path": "refused"})
+                rep.viol_counts[sig.replace("write/refused-service", "write/refused")] = sub.viol_counts[sig]
+        rep.sample({"config": cfg, "refused_write_services": "every n-th service of single, 3-request and 6-request write calls"})
+        call(d.close)
         w.__exit__()
         return rep
     cases = write_cases(proj, tier)
@@ -304,6 +323,12 @@ def replay(r):
     fill_image(proj, r["image"])
     reqs = [(x, tuple(v) if False else v) for x, v in r["requests"]]
     rep = Report()
+    if r["path"] == "refused":
+        w.__exit__()
+        rep = run_shard(("refused", cfg[0], cfg[1], cfg[2], "refused"), "quick", r["image"])
+        for s_, vs in rep.violations.items():
+            print("  violates:", s_, "::", vs[0].msg[:400])
+        return not rep.violations
     if r["path"] == "chain":
         ok = check_chain(rep, tuple(cfg), proj, ctl, d, reqs)
     else:
